@@ -327,6 +327,19 @@ class Engine:
                     L = A.sub(end, s)
                     if A.equal(L, W if fam != "if" else W):
                         hits.append((fam, "t", "=" + nm, ("rowabs", W)))
+        if not hits:
+            # a contiguous slice that starts a grid-size-dependent number of entries into the array, which is not a
+            # whole number of rows of this array for some grids: it pairs entries of different columns (a flat
+            # shift by ny in an array whose rows have width nx is a neighbour relation only when nx == ny)
+            for fam, base, W in self.widths(arr.role):
+                off = A.sub(s, base)
+                if off.const_value() is None and not any(a in self.loops for a in A.atoms_of(off)):
+                    for vx, vy in ((7, 4), (4, 7), (9, 2)):
+                        m = {next(iter(A.atoms_of(self.nx))): A.const(vx), next(iter(A.atoms_of(self.ny))): A.const(vy)}
+                        o, w = A.subst(off, m).const_value(), A.subst(W, m).const_value()
+                        if o is not None and w is not None and o.denominator == 1 and w != 0 and o % w != 0:
+                            raise LayoutMismatch("line %d: slice [%s:%s] of %s starts %s entries into an array whose rows have width %s: not a whole number of rows (e.g. on a %dx%d grid), so the statement pairs entries of different columns -- it is the intended neighbour relation only for particular (nx, ny)" % (
+                                getattr(interp.dom, "cur_line", 0), A.show(s), A.show(e) if e is not None else "", arr.name, A.show(off), A.show(W), vx, vy))
         if len(hits) != 1:
             raise AnalysisError("slice [%s:%s] of %s does not decode to one row of the layout (%d matches)" % (A.show(s), A.show(e) if e is not None else "", arr.name, len(hits)))
         return hits[0]
